@@ -10,6 +10,11 @@ BASE_NOTE = ("Trusted base: the simulator (/verif/sim: simulated pipes/net/clock
 
 # property -> (level category, level text, design ref, extra note)
 CHECKS = {
+ "C02": ("exploration", "Seeded scripts of SYN/PSH/FIN/SYNACK/heartbeat/unknown-command frames over a small id pool (ids unknown, not yet opened, finished, reused) played by a raw peer against a real server Session and a real client Session (with interleaved open_stream calls) over a fragmenting transport; reference model of per-instance expected bytes/FIN; table contents compared through the read-only accessor.", "7/C02", ""),
+ "C03": ("exploration", "Seeded frame sequences (all 256 command bytes, boundary ids, lengths 0..65535 and attempted oversize through the real encoder) and arbitrary byte strings, delivered through a fragmenting simulated pipe into the real read_buf+decode loop; compared with an independent whole-buffer reference codec; consumed-byte accounting after every decode call. The round-trip/length-field clauses are pure functions of the input (seeded generation only).", "7/C03", ""),
+ "C04": ("exploration", "Seeded padding schemes from the whole accepted language (sizes up to 2^63-1, reversed ranges, junk, missing lines) x packets of 0..200000 payload bytes written through the real client Session onto a recording pipe; reference parser checks frame alignment at every flush, that removing Waste leaves exactly the submitted frames, that no operation fails/panics/attempts a giant write, and (peer = real server) that the payload is delivered.", "7/C04", ""),
+ "C05": ("exploration", "Seeded schemes (sizes <= 65535) x payload sizes x single/concurrent writers; the record lengths of the k-th flush-delimited group on the recorded client transport are checked by a reference acceptor that walks scheme line k; preamble padding0 length from line 0; no padding from packet `stop` on and never from the server.", "7/C05", ""),
+ "C11": ("exploration", "2-6 concurrent tasks re-enacting create_proxy_stream + direct/queued writes + heartbeats on one fresh or established client session with all write-path yield points eligible and seeded transport capacity; oracle on the reference-decoded recorded wire (contiguity, Settings first, SYN before PSH, per-stream order, exactly-once) and delivery through a real server session.", "7/C11", ""),
  "C01": ("exploration", "Seeded search over plans (streams, chunk sizes incl. 0 and >65535, APIs, reader buffers, padding schemes) x transport fragmentation/back-pressure/latency x scheduler perturbation; oracle = per-read prefix check against the submitted bytes plus completeness at quiescence. Real Session/Stream/StreamReader/codec/padding on both ends.", "7/C01", ""),
 }
 
